@@ -242,7 +242,6 @@ theorem AW_exact {t : Slice} (ht : t.WF) : AW t (Slice.exact t.bytes) := by
   · unfold Slice.exact; simp only [hl]
   · unfold Slice.exact Slice.bytes
     simp only [List.take_length]
-    rfl
 
 theorem AW_trans {a b c : Slice} (h1 : AW a b) (h2 : AW b c) : AW a c :=
   ⟨h1.1, h2.2.1, h1.len_eq.trans h2.len_eq, h1.bytes_eq.trans h2.bytes_eq⟩
